@@ -709,13 +709,10 @@ func ruleUniq(c *Ctx, rule string) {
 	}
 	c.Check(dup, rule, name+": duplicate rejected", p.Pos(fn.Pos()), "on the edge where the value is already indexed a UniqueIndexDuplicateError is recorded", "no UniqueIndexDuplicateError is recorded when the value is already present")
 	// empty new value on a non-nullable index is an error
-	nullable := p.Field("boltz", "uniqueIndex", "nullable")
+	pol := findEmptyPolicy(c, "uniqueIndex")
 	nonNull := false
 	for _, call := range callsIn(fn) {
-		if invokeNamed(call, "SetError") && fi.HoldsWhere(call.Block(), func(f Fact) bool {
-			ff, _ := loadedField(f.V)
-			return f.Kind == "true" && !f.Pol && sameVar(ff, nullable)
-		}) {
+		if invokeNamed(call, "SetError") && fi.HoldsWhere(call.Block(), pol.refuses) {
 			nonNull = true
 		}
 	}
@@ -1201,6 +1198,20 @@ func ruleFkWiring(c *Ctx, rule string) {
 					ok, why = false, fmt.Sprintf("the %s is registered on %q instead of %q: the constraint lands on the wrong store (a delete of a referenced entity is then neither refused nor cascaded)", w.typ, on, wantOn)
 				}
 				for fname, wantV := range w.fields {
+					if fname == "nullable" && (wantV == "true" || wantV == "false") {
+						// "tolerates an empty value?", in whatever form the struct keeps that (a bool, or a named
+						// constant): the value built in must be one that the update step refuses / does not refuse
+						pol := findEmptyPolicy(c, w.typ)
+						got := ev.ArgFields[last][fieldIdx(t, pol.fld.Name())]
+						if got.Kind == "" && got.Sym == "" {
+							got = pol.zero()
+						}
+						refuses, known := pol.valueRefuses(got)
+						if !known || refuses != (wantV == "false") {
+							ok, why = false, fmt.Sprintf("the %s is built with %s = %s, expected a value that %s an empty reference", w.typ, pol.fld.Name(), got, map[bool]string{true: "tolerates", false: "refuses"}[wantV == "true"])
+						}
+						continue
+					}
 					got := ev.ArgFields[last][fieldIdx(t, fname)]
 					gs := got.Sym
 					if got.Kind == "const" {
@@ -1305,13 +1316,10 @@ func ruleFkExists(c *Ctx, rule string) {
 		}
 	}
 	c.Check(okPresent, rule, FnName(fc), p.Pos(fc.Pos()), "a reference to an absent target records a not-found error", "a reference to a missing target is accepted")
-	nullable := p.Field("boltz", "fkConstraint", "nullable")
+	polC := findEmptyPolicy(c, "fkConstraint")
 	okNull := false
 	for _, call := range callsIn(fc) {
-		if invokeNamed(call, "SetError") && fi2.HoldsWhere(call.Block(), func(f Fact) bool {
-			ff, _ := loadedField(f.V)
-			return f.Kind == "true" && !f.Pol && sameVar(ff, nullable)
-		}) {
+		if invokeNamed(call, "SetError") && fi2.HoldsWhere(call.Block(), polC.refuses) {
 			okNull = true
 		}
 	}
@@ -2535,4 +2543,123 @@ func delegatesConstraintStep(fn *ssa.Function, f *types.Func) (*ssa.Function, in
 		}
 	}
 	return nil, 0, nil
+}
+
+// emptyPolicy: how an index or constraint struct records whether it tolerates an empty (nil) value: the field,
+// and which of its values make the update step refuse one.  On the pinned tree this is the bool `nullable`
+// (false refuses); the same thing kept as a named constant is recognised by the test that guards the refusal.
+type emptyPolicy struct {
+	fld      *types.Var
+	isBool   bool
+	refusing map[string]bool // constant values (ExactString) that refuse, for the non-bool form
+	refuses  func(f Fact) bool
+}
+
+func (ep *emptyPolicy) zero() AV {
+	if ep.isBool {
+		return avBool(false)
+	}
+	return avInt(0)
+}
+
+// valueRefuses: does this built-in value make the struct refuse an empty value?
+func (ep *emptyPolicy) valueRefuses(a AV) (refuses, known bool) {
+	if a.Kind != "const" {
+		return false, false
+	}
+	if ep.isBool {
+		if a.C.Kind() != constant.Bool {
+			return false, false
+		}
+		return !constant.BoolVal(a.C), true
+	}
+	return ep.refusing[a.C.ExactString()], true
+}
+
+var emptyPolicyCache = map[string]*emptyPolicy{}
+
+func findEmptyPolicy(c *Ctx, typ string) *emptyPolicy {
+	if ep, ok := emptyPolicyCache[typ]; ok && ep != nil && c.P.Named("boltz", typ).Underlying() != nil {
+		if st, isSt := c.P.Named("boltz", typ).Underlying().(*types.Struct); isSt {
+			for i := 0; i < st.NumFields(); i++ {
+				if st.Field(i) == ep.fld {
+					return ep
+				}
+			}
+		}
+	}
+	p := c.P
+	nm := p.Named("boltz", typ)
+	st, _ := nm.Underlying().(*types.Struct)
+	ep := &emptyPolicy{refusing: map[string]bool{}}
+	for i := 0; st != nil && i < st.NumFields(); i++ {
+		if f := st.Field(i); f.Name() == "nullable" && types.Identical(f.Type(), types.Typ[types.Bool]) {
+			ep.fld, ep.isBool = f, true
+		}
+	}
+	if ep.fld != nil {
+		ep.refuses = func(f Fact) bool {
+			ff, _ := loadedField(f.V)
+			return f.Kind == "true" && !f.Pol && sameVar(ff, ep.fld)
+		}
+		emptyPolicyCache[typ] = ep
+		return ep
+	}
+	// by role: in the struct's update step, an error made on the spot is recorded under a test of one of the
+	// struct's own unexported fields against a constant; that field is the policy, that constant refuses
+	cmpOf := func(f Fact) (*types.Var, string, bool) {
+		bo, isB := f.V.(*ssa.BinOp)
+		if f.Kind != "true" || !isB || (bo.Op != token.EQL && bo.Op != token.NEQ) {
+			return nil, "", false
+		}
+		x, y := bo.X, bo.Y
+		if _, isK := x.(*ssa.Const); isK {
+			x, y = y, x
+		}
+		k, isK := y.(*ssa.Const)
+		ff, _ := loadedField(x)
+		if !isK || k.Value == nil || ff == nil || ff.Exported() {
+			return nil, "", false
+		}
+		owner := false
+		for i := 0; st != nil && i < st.NumFields(); i++ {
+			if sameVar(st.Field(i), ff) {
+				owner = true
+			}
+		}
+		if !owner {
+			return nil, "", false
+		}
+		return ff, k.Value.ExactString(), (bo.Op == token.EQL) == f.Pol
+	}
+	m := p.MethodOpt("boltz", typ, "ProcessAfterUpdate")
+	if m != nil {
+		fn := p.SSAFunc(m)
+		fi := factsOf(fn)
+		for _, call := range callsIn(fn) {
+			if !invokeNamed(call, "SetError") || len(call.Common().Args) == 0 {
+				continue
+			}
+			arg := call.Common().Args[len(call.Common().Args)-1]
+			if k, isCall := arg.(*ssa.Call); !isCall || func() bool { cal, _ := calleeOf(k.Common()); return cal == nil || !isErrorCtor(cal) }() {
+				continue
+			}
+			for f := range fi.At(call.Block()) {
+				if ff, kv, equal := cmpOf(f); ff != nil && equal {
+					ep.fld = ff
+					ep.refusing[kv] = true
+				}
+			}
+		}
+	}
+	if ep.fld == nil {
+		panic(anchorLost{"boltz." + typ + ".nullable (field)"})
+	}
+	p.RenamedAnchors = append(p.RenamedAnchors, "boltz."+typ+".nullable -> "+ep.fld.Name()+" (the field tested where an empty value is refused)")
+	ep.refuses = func(f Fact) bool {
+		ff, kv, equal := cmpOf(f)
+		return ff != nil && sameVar(ff, ep.fld) && equal && ep.refusing[kv]
+	}
+	emptyPolicyCache[typ] = ep
+	return ep
 }
